@@ -421,7 +421,11 @@ def apiCase? : String → Option ApiCase
   | "toValueNilValue" => some .toValueNilValue | "marshalFunction" => some .marshalFunction
   | "marshalObjectWithFunction" => some .marshalObjectWithFunction | "marshalUndefined" => some .marshalUndefined
   | "callTwoStatements" => some .callTwoStatements | "callTwoStatementsThis" => some .callTwoStatementsThis
-  | "callExprStatement" => some .callExprStatement | _ => none
+  | "callExprStatement" => some .callExprStatement
+  | "runThrowToStringHostThrows" => some .runThrowToStringHostThrows | "setZeroObject" => some .setZeroObject
+  | "setPtrZeroObject" => some .setPtrZeroObject | "exportStringObject" => some .exportStringObject
+  | "exportNumberObject" => some .exportNumberObject | "exportFunction" => some .exportFunction
+  | "exportDate" => some .exportDate | _ => none
 
 def apiOutTok : ApiOut → String
   | .goPanic => "panic"
@@ -464,9 +468,21 @@ def path? (kind mem this : String) : Option Path :=
   | "gnew" => if this = "-" then some (.ottoCallNew none) else (goVal? this).map fun g => .ottoCallNew (some g)
   | _ => none
 
+def arithOp? : String → Option OttoVerif.C05.BinOp
+  | "add" => some .add | "sub" => some .sub | "mul" => some .mul | "div" => some .div | "rem" => some .rem | _ => none
+
+def throwKind? : String → Option ThrowKind
+  | "refProto" => some .refProto | "errProto" => some .errProto | "rangeErr" => some .rangeErr | "emptyErr" => some .emptyErr
+  | "plainObj" => some .plainObj | "num" => some .num | "null" => some .null | "undef" => some .undef | "bool" => some .bool
+  | "str" => some .str | "fn" => some .fn | "arr" => some .arr | "created" => some .created | "custom" => some .custom
+  | _ => none
+
 def exit? : String → Option Exit
   | "ret" => some .ret | "throwTypeError" => some .throwTypeError
-  | "throwOnce" => some .throwOnce | "throwValue" => some .throwValue | _ => none
+  | "throwOnce" => some .throwOnce | "throwValue" => some .throwValue
+  | s => match s.splitOn ":" with
+    | ["throw", k] => (throwKind? k).map .throwKind
+    | _ => none
 
 def obsArgs (vs : List View) : String := ";".intercalate (vs.map obsView)
 
@@ -475,6 +491,7 @@ def obsOutcome : Outcome → String
   | .retObject => "ret:object"
   | .throwErr cls t n => "throw:" ++ cls ++ ":t:" ++ obsThis t ++ ":" ++ toString n
   | .throwValue t => "throw:value:s:" ++ obsThis t
+  | .threw text => "threw:" ++ text
 
 /-- outcome / number of invocations / the `this` of each invocation -/
 def obsRun (r : Run) : String :=
@@ -504,8 +521,20 @@ def handle (ws : List String) : String :=
       let sp := bindingOut (Spec.reentryResolves r sh)
       reply (bindingOut (reentryResolves r sh) ++ "#" ++ sp) (sp ++ "#" ++ sp) "-"
     | _, _ => "bad-op"
+  | ["arith", o, a, b] => match arithOp? o, goVal? a, goVal? b with
+    | some o, some g1, some g2 =>
+      let out (r : Res Val) : String := resOut (fun v =>
+        resOut goOut (exportV (.prim v)) ++ "/" ++
+        resOut f64Out (valFloat env (.prim v)) ++ "/" ++ resOut optStrOut (valString (.prim v))) r
+      reply (out (arith env o g1 g2)) (out (Spec.arith env o g1 g2)) "-"
+    | _, _, _ => "bad-op"
+  | ["reentcopy", r] => match reentry? r with
+    | some r =>
+      let f : Runtime → String := fun x => match x with | .template => "template" | .copy => "copy"
+      reply (f (hostOttoOnCopy r)) (f (Spec.hostOttoOnCopy r)) "-"
+    | none => "bad-op"
   | ["api", c] => match apiCase? c with
-    | some c => reply (apiOutTok (apiModel c)) (apiOutTok (Spec.apiSpec c)) "-"
+    | some c => reply (apiOutTok (apiModel c)) (apiOutTok (Spec.apiSpec c)) ((Spec.Dev.apiRegion c).getD "-")
     | none => "bad-op"
   | "callx" :: kind :: mem :: this :: ex :: args => match path? kind mem this, exit? ex, goVals? args with
     | some p, some b, some gs => callxOp p b gs
